@@ -23,7 +23,7 @@ const lock7Prim = "lib/query.loadView"
 
 func init() {
 	Register(&Rule{ID: "R-LOCK-7", Props: []string{"C09", "C05"}, Floor: 20,
-		Doc:      "lock before read in data-changing statements: in every lib/query function that calls a table-loading function (one that reaches lib/query.loadView and has a bool parameter forUpdate) with the constant true for forUpdate — Insert, Update, Replace, Delete, AddColumns, DropColumns, RenameColumn, SetTableAttribute today — every other call that can load a table (reaches lib/query.loadView without going through the statement interpreter: Select, LoadInlineTable, InsertFromQuery, Where, Evaluate of sub-queries …) is preceded by such an update-load on every path from the function entry (must-precede). WITH clauses are not exempt: LoadInlineTable evaluates the inline queries eagerly (InlineTableMap.Set calls Select)",
+		Doc:      "lock before read in data-changing statements: in every lib/query function that calls a table-loading function (one that reaches lib/query.loadView and has a bool parameter forUpdate) with the constant true for forUpdate — Insert, Update, Replace, Delete, AddColumns, DropColumns, RenameColumn, SetTableAttribute today — every other call that can load a table (reaches lib/query.loadView without going through the statement interpreter: Select, LoadInlineTable, InsertFromQuery, Where, Evaluate of sub-queries …) is preceded by such an update-load on every path from the function entry (must-precede); a call that only locks — its callee reaches lib/file.(*Container).CreateHandlerForUpdate with forUpdate = true and cannot reach loadView — is an update-load too. WITH clauses are not exempt: LoadInlineTable evaluates the inline queries eagerly (InlineTableMap.Set calls Select)",
 		Controls: []string{"CtlLock7SelectBeforeUpdateLoad"},
 		Run:      ruleLock7})
 }
@@ -41,28 +41,108 @@ func lock7ForUpdateParam(k *ssa.Function) int {
 	return -1
 }
 
-func ruleLock7(c *Ctx) {
-	p := c.P
-	if c.Fn(lock7Prim) == nil {
-		return
+// lock7LockPrim is the lock primitive of an update-load: the handler that holds
+// the .lock file of a table until the transaction ends.
+const lock7LockPrim = "lib/file.(*Container).CreateHandlerForUpdate"
+
+// lock7Entry is a data-changing entry function: a function without a forUpdate
+// parameter of its own that calls a table loader with forUpdate = true.
+type lock7Entry struct {
+	fn *ssa.Function
+	// mixed: update-loads through a loader that reaches loadView, i.e. that can
+	// also evaluate queries (sub-queries of the FROM clause, table function arguments)
+	mixed []*ssa.Call
+	// pure: update-loads that only lock and read the named files: the callee reaches
+	// the lock primitive with forUpdate = true and cannot reach loadView
+	pure []*ssa.Call
+}
+
+func (e *lock7Entry) isUp(in ssa.Instruction) bool {
+	for _, u := range e.mixed {
+		if u == in {
+			return true
+		}
 	}
-	readers := p.CanReach([]string{lock7Prim}, txnBarrier)
+	return e.isPure(in)
+}
+
+func (e *lock7Entry) isPure(in ssa.Instruction) bool {
+	for _, u := range e.pure {
+		if u == in {
+			return true
+		}
+	}
+	return false
+}
+
+// lock7LocksForUpdate: k (which has no forUpdate parameter and cannot reach
+// loadView) opens files for update — it is the lock primitive, or one of the
+// calls of k or of its closures is a pure update-load.
+func lock7LocksForUpdate(p *core.Prog, k *ssa.Function, readers, lockers map[*ssa.Function]bool, seen map[*ssa.Function]bool) bool {
+	if p.Name(k) == lock7LockPrim {
+		return true
+	}
+	if seen[k] {
+		return false
+	}
+	seen[k] = true
+	fns := []*ssa.Function{k}
+	for i := 0; i < len(fns); i++ {
+		fns = append(fns, fns[i].AnonFuncs...)
+	}
+	for _, f := range fns {
+		for _, call := range core.Calls(f) {
+			if cc, ok := call.(*ssa.Call); ok && lock7PureUpdateLoad(p, cc, readers, lockers, seen) {
+				return true
+			}
+		}
+	}
+	return false
+}
+
+// lock7PureUpdateLoad: cc opens files for update and evaluates nothing.
+func lock7PureUpdateLoad(p *core.Prog, cc *ssa.Call, readers, lockers map[*ssa.Function]bool, seen map[*ssa.Function]bool) bool {
+	k := core.StaticCallee(cc)
+	if k == nil || readers[k] || !lockers[k] {
+		return false
+	}
+	if j := lock7ForUpdateParam(k); j >= 0 {
+		if j >= len(cc.Call.Args) {
+			return false
+		}
+		b, isConst := core.ConstBool(cc.Call.Args[j])
+		return isConst && b
+	}
+	return lock7LocksForUpdate(p, k, readers, lockers, seen)
+}
+
+// lock7Entries finds the data-changing entry functions of lib/query (and the
+// controls whose name contains tag).
+func lock7Entries(c *Ctx, tag string) (entries []*lock7Entry, readers map[*ssa.Function]bool) {
+	p := c.P
+	readers = p.CanReach([]string{lock7Prim}, txnBarrier)
+	lockers := p.CanReach([]string{lock7LockPrim}, txnBarrier)
 	fns := p.FuncsIn(false, "lib/query")
-	fns = append(fns, txnCtl(c, "Lock7")...)
-	entries := 0
+	fns = append(fns, txnCtl(c, tag)...)
 	for _, fn := range fns {
 		if fn.Parent() != nil || lock7ForUpdateParam(fn) >= 0 {
 			continue // closures are seen through their parent; loaders that pass forUpdate on are not entry functions
 		}
+		e := &lock7Entry{fn: fn}
 		// update-loads: loader(…, forUpdate = true, …)
-		var ups []ssa.Instruction
 		for _, call := range core.Calls(fn) {
 			cc, ok := call.(*ssa.Call)
 			if !ok {
 				continue
 			}
 			k := core.StaticCallee(cc)
-			if k == nil || !readers[k] {
+			if k == nil {
+				continue
+			}
+			if !readers[k] {
+				if lock7PureUpdateLoad(p, cc, readers, lockers, map[*ssa.Function]bool{}) {
+					e.pure = append(e.pure, cc)
+				}
 				continue
 			}
 			j := lock7ForUpdateParam(k)
@@ -70,35 +150,46 @@ func ruleLock7(c *Ctx) {
 				continue
 			}
 			if b, isConst := core.ConstBool(cc.Call.Args[j]); isConst && b {
-				ups = append(ups, cc)
+				e.mixed = append(e.mixed, cc)
 			}
 		}
-		if len(ups) == 0 {
+		if len(e.mixed) == 0 {
 			continue
 		}
+		entries = append(entries, e)
+	}
+	return entries, readers
+}
+
+func ruleLock7(c *Ctx) {
+	p := c.P
+	if c.Fn(lock7Prim) == nil {
+		return
+	}
+	all, readers := lock7Entries(c, "Lock7")
+	entries := 0
+	for _, e := range all {
+		fn := e.fn
 		if !p.IsControl(fn) {
 			entries++
 		}
 		c.Touch(fn)
-		isUp := func(in ssa.Instruction) bool {
-			for _, u := range ups {
-				if u == in {
-					return true
-				}
-			}
-			return false
+		first := ssa.Instruction(e.mixed[0])
+		note := ""
+		if len(e.pure) > 0 {
+			note = fmt.Sprintf(" and %d call(s) that only lock (reach %s with forUpdate = true, evaluate nothing)", len(e.pure), lock7LockPrim)
 		}
-		c.Ok(c.KeyAt(fn, "update-load of the target"), c.Pos(ups[0]), fmt.Sprintf("data-changing entry function: %d call(s) load tables with forUpdate = true", len(ups)))
+		c.Ok(c.KeyAt(fn, "update-load of the target"), c.Pos(first), fmt.Sprintf("data-changing entry function: %d call(s) load tables with forUpdate = true%s", len(e.mixed), note))
 		ord := map[string]int{}
 		for _, call := range core.Calls(fn) {
 			cc, ok := call.(*ssa.Call)
-			if !ok || isUp(cc) || !txnCallIn(p, cc, readers) {
+			if !ok || e.isUp(cc) || !txnCallIn(p, cc, readers) {
 				continue
 			}
 			c.Sites++
 			key := txnOrd(ord, c.KeyAt(fn, txnCallLabel(p, cc)+" after the update-load of the target"))
-			if core.ReachesFromEntry(fn, cc, isUp, nil) {
-				c.Bad(key, c.Pos(cc), fmt.Sprintf("this call can load and read tables for the statement, and a path reaches it before the target has been opened for update (update-load at %s): it reads the target through the unlocked shared path; the update-load then re-reads the file and the statement writes rows computed from the stale read over whatever another process committed in between (lost update)", c.Pos(ups[0])))
+			if core.ReachesFromEntry(fn, cc, e.isUp, nil) {
+				c.Bad(key, c.Pos(cc), fmt.Sprintf("this call can load and read tables for the statement, and a path reaches it before the target has been opened for update (update-load at %s): it reads the target through the unlocked shared path; the update-load then re-reads the file and the statement writes rows computed from the stale read over whatever another process committed in between (lost update)", c.Pos(first)))
 			} else {
 				c.Ok(key, c.Pos(cc), "every path to it has passed the update-load of the target")
 			}
